@@ -173,6 +173,24 @@ def run(
     return r
 
 
+def apalache(module_path, init="Init", nxt="Next", inv="Inv", length=1, timeout=1200, tag="apa"):
+    """Run apalache-mc check on a module; returns (ok, text).  A crash, a type error or a time-out is a machinery failure."""
+    wd = _workdir(tag)
+    cmd = ["apalache-mc", "check", f"--init={init}", f"--next={nxt}", f"--inv={inv}", f"--length={length}", f"--out-dir={wd}", str(module_path)]
+    try:
+        p = subprocess.run(cmd, cwd=SPEC, capture_output=True, text=True, timeout=timeout)
+    except (subprocess.TimeoutExpired, FileNotFoundError) as ex:
+        shutil.rmtree(wd, ignore_errors=True)
+        raise MachineryError(f"apalache-mc failed to run: {ex}") from ex
+    shutil.rmtree(wd, ignore_errors=True)
+    out = p.stdout + p.stderr
+    if "The outcome is: NoError" in out:
+        return True, " ".join(cmd[:7])
+    if "The outcome is: Error" in out or "violat" in out:
+        return False, " ".join(cmd[:7])
+    raise MachineryError(f"apalache-mc gave no verdict ({Path(module_path).name}):\n{out[-1500:]}")
+
+
 def write_cfg(name: str, text: str) -> str:
     """Write a generated .cfg under .work (literal constants are much faster than overrides through definitions)."""
     d = WORK / "cfg"
